@@ -110,6 +110,10 @@ impl TransactionManager {
     @@TransactionManager::commit@@
 
     @@TransactionManager::abort@@
+
+    @@TransactionManager::record_write@@
+
+    @@TransactionManager::record_read@@
 }
 
 } // verus!
@@ -290,7 +294,36 @@ def build(repo):
     f.body_start('proof { axiom_keys(); }\nlet ghost T0 = old(self).transactions@;')
     f.before('return Err', 'proof { lemma_get_mut_effect(T0, self.transactions@, tx_id); }')
     f.before_tail('proof { lemma_get_mut_effect(T0, self.transactions@, tx_id); }')
+
+    # ---- record_write / record_read ------------------------------------------------------------------
+    for name, fld, other in (('record_write', 'write_set', 'read_set'), ('record_read', 'read_set', 'write_set')):
+        f = u.method(SRC, 'TransactionManager', name).D1().ret('res')
+        f.sub('E3', '    let mut txns = self.transactions.write();\n', '')
+        f.resub('E3', r'\btxns\b', 'self.transactions')
+        f.sub('E3', 'pub fn %s(&self,' % name, 'pub fn %s(&mut self,' % name)
+        # `impl Into<EntityId>`: Into<T> for T is the identity and From<NodeId>/From<EdgeId> are one-line constructors; the conversion is moved to the caller
+        f.sub('X1', 'entity: impl Into<EntityId>', 'entity: EntityId')
+        f.sub('X1', 'entity.into()', 'entity')
+        f.R4()
+        f.ensures('ok_grows_exactly', '''res is Ok ==> {
+                &&& old(self).transactions@.contains_key(tx_id) && old(self).transactions@[tx_id].state == TxState::Active
+                &&& final(self).transactions@.dom() == old(self).transactions@.dom()
+                &&& final(self).transactions@[tx_id].%s@ == old(self).transactions@[tx_id].%s@.insert(entity)
+                &&& final(self).transactions@[tx_id].%s@ == old(self).transactions@[tx_id].%s@
+                &&& final(self).transactions@[tx_id].state == TxState::Active
+                &&& final(self).transactions@[tx_id].start_epoch == old(self).transactions@[tx_id].start_epoch
+                &&& final(self).transactions@[tx_id].isolation_level == old(self).transactions@[tx_id].isolation_level
+                &&& forall|o: TxId| o != tx_id && old(self).transactions@.contains_key(o) ==> final(self).transactions@[o] == old(self).transactions@[o]
+            }''' % (fld, fld, other, other), ['C03', 'C04'])
+        f.ensures('err_not_active', 'res is Err ==> !(old(self).transactions@.contains_key(tx_id) && old(self).transactions@[tx_id].state == TxState::Active)', ['C03', 'C04'])
+        f.ensures('err_changes_nothing', 'res is Err ==> final(self).transactions@.dom() == old(self).transactions@.dom()'
+                  ' && forall|o: TxId| old(self).transactions@.contains_key(o) ==> final(self).transactions@[o].state == old(self).transactions@[o].state'
+                  ' && final(self).transactions@[o].write_set@ == old(self).transactions@[o].write_set@ && final(self).transactions@[o].read_set@ == old(self).transactions@[o].read_set@', ['C03', 'C04'])
+        f.ensures('frame', 'final(self).committed_epochs@ == old(self).committed_epochs@ && final(self).current_epoch == old(self).current_epoch && final(self).next_tx_id == old(self).next_tx_id')
+        f.body_start('proof { axiom_keys(); }\nlet ghost T0 = old(self).transactions@;')
+        f.before('return Err', 'proof { lemma_get_mut_effect(T0, self.transactions@, tx_id); }')
+        f.before_tail('proof { lemma_get_mut_effect(T0, self.transactions@, tx_id); }')
     u.not_covered += ['TransactionManager::gc (values().filter().map().min(), iter().filter().collect(): adapter chains) - "clean-up never changes which commits are accepted" is UNDECIDED',
-                      'TransactionManager::{record_write, record_read} (impl Into<EntityId> argument), abort_all_active (values_mut), min_active_epoch, active_count',
+                      'TransactionManager::abort_all_active (values_mut), min_active_epoch, active_count',
                       'Session / operators calling the manager; parallel.rs; every multi-threaded interleaving']
     return u
